@@ -493,6 +493,69 @@ def decorated(ctx, tier):
             ctx.state(("decorated", hist))
 
 
+def name_list_cells(ctx):
+    """on_trait_change with a *list* of extended names is the same as one
+    call per name: registered and removed in any grouping or order"""
+    import itertools
+    names = ["child:value", "kids:value"]
+    forms = {"list": [names], "reversed": [names[::-1]],
+             "singles": [[n] for n in names],
+             "singles-reversed": [[n] for n in names[::-1]],
+             "bare-singles": names}
+    for add, rem in itertools.product(forms, repeat=2):
+        ctx.case({"name_list": [add, rem]})
+        ctx.ev()
+        pool = G.make_pool()
+        root, n1, n2 = pool
+        root.child = n1
+        root.kids = [n2]
+        calls = []
+
+        def h(obj, name, old, new):
+            calls.append(name)
+        for arg in forms[add]:
+            root.on_trait_change(h, arg)
+        good = True
+        for o in (n1, n2):
+            calls.clear()
+            ctx.tr()
+            o.value += 1
+            if calls.count("value") != 1:
+                good = False
+                ctx.violation(
+                    "C16:name-list:added-%s" % add,
+                    "handler registered for %r (%s): changing a leaf gave %d "
+                    "call(s), expected 1" % (names, add,
+                                             calls.count("value")),
+                    history=[["name_list", add, rem]])
+        if not good:
+            continue
+        ctx.outcome("leaf-called")
+        try:
+            for arg in forms[rem]:
+                root.on_trait_change(h, arg, remove=True)
+        except Exception as exc:
+            ctx.violation("C16:name-list:remove-raises",
+                          "removal (%s after %s) raised %r" % (rem, add, exc),
+                          history=[["name_list", add, rem]])
+            continue
+        n3 = type(root)()
+        root.kids.append(n3)
+        for o in (n1, n2, n3):
+            calls.clear()
+            ctx.tr()
+            o.value += 1
+            if calls:
+                ctx.violation(
+                    "C16:name-list:still-called",
+                    "registered as %s, removed as %s: the handler is still "
+                    "called (%r)" % (add, rem, calls),
+                    history=[["name_list", add, rem]])
+                break
+        else:
+            ctx.outcome("after-removal-silent")
+
+
 UI_Q = []
 
 
@@ -537,7 +600,8 @@ def ui_threaded(ctx):
 
 
 def shards(tier):
-    out = [{"pair": "__decorated__"}, {"pair": "__ui_threaded__"}]
+    out = [{"pair": "__decorated__"}, {"pair": "__ui_threaded__"},
+           {"pair": "__name_list__"}]
     for pair in PAIRS:
         n = len(menu(pair))
         for i in range(n):
@@ -556,6 +620,10 @@ def run_shard(ctx, shard, tier):
     if pair == "__ui_threaded__":
         ui_threaded(ctx)
         ctx.depth_completed = 1
+        return
+    if pair == "__name_list__":
+        name_list_cells(ctx)
+        ctx.depth_completed = 2
         return
     evs = menu(pair)
     depth = 4 if tier == "quick" else 5
@@ -590,6 +658,11 @@ def replay(rec):
     from mc.ctx import Ctx
     ctx = Ctx("C16", None, "quick", 0)
     c = rec.get("case") or rec
+    if c.get("name_list"):
+        name_list_cells(ctx)
+        for v in ctx.violations.values():
+            print("  violation:", v["sig"], v["msg"])
+        return not ctx.violations
     if c.get("decorated") or c.get("ui_threaded"):
         decorated(ctx, "quick") if c.get("decorated") else ui_threaded(ctx)
         for v in ctx.violations.values():
